@@ -195,7 +195,9 @@ func (g *G) nearMissFormat() string {
 // byte strings around the declarations: near misses, wrong types, duplicates, tag-value, garbage
 func (g *G) sniffBytes() ([]byte, string) {
 	ver := func() string {
-		return g.Pick([]string{"1.3", "1.4", "1.5", "1.2", "1.6", "1.50", " 1.4", "1.4 ", "", "15", "2.3"})
+		return g.Pick([]string{"1.3", "1.4", "1.5", "1.2", "1.6", "1.50", " 1.4", "1.4 ", "", "15", "2.3",
+			// numerically equal to a readable version, textually not
+			"1.04", "01.4", "+1.4", "1.+5", "1.4e0", "1.3.0", "１.４"})
 	}
 	sv := func() string {
 		return g.Pick([]string{"SPDX-2.3", "SPDX-2.2", "SPDX-2.1", "SPDX-3.0", "spdx-2.3", "SPDX-2.3 ", "2.3", "", "SPDX-2.30"})
@@ -204,7 +206,7 @@ func (g *G) sniffBytes() ([]byte, string) {
 		return g.Pick([]string{"CycloneDX", "cyclonedx", "CYCLONEDX", "CycloneDx", "CycloneDX ", "Cyclone", "", "SPDX", "cyclonedX", "ſpdx", "CYCLONEDXK"})
 	}
 	q := func(s string) string { b, _ := json.Marshal(s); return string(b) }
-	switch g.Int(12) {
+	switch g.Int(13) {
 	case 0:
 		return []byte(fmt.Sprintf(`{"bomFormat":%s,"specVersion":%s}`, q(bf()), q(ver()))), "cdx-decl"
 	case 1:
@@ -258,6 +260,16 @@ func (g *G) sniffBytes() ([]byte, string) {
 	case 10: // state-priming lines: a tag without a version, then a bare quoted version
 		return []byte(g.Pick([]string{"SPDXVersion: SPDX-2.1\n", "SPDXVersion: none", "prose mentioning \"SPDX-2.3\" in quotes", "see 'SPDX-2.2' here",
 			"SPDXVersion: x\nquoted \"SPDX-2.3\"", "quoted \"SPDX-2.3\"\nSPDXVersion: y", "{\"spdxVersion\": \n\"SPDX-2.3\""})), "priming"
+	case 11:
+		// valid JSON whose declaration is unsupported or missing while a string value quotes a
+		// tag-value declaration: the declaration decides, the text inside a value does not
+		inner := g.Pick([]string{"SPDXVersion: SPDX-2.3", "SPDXVersion: SPDX-2.2", "x\nSPDXVersion: SPDX-2.3\ny"})
+		return []byte(g.Pick([]string{
+			fmt.Sprintf(`{"bomFormat":"CycloneDX","specVersion":%s,"components":[{"description":%s}]}`, q(g.Pick([]string{"1.6", "1.2", "2.0", ""})), q(inner)),
+			fmt.Sprintf("{\n \"spdxVersion\": \"SPDX-2.1\",\n \"comment\": %s\n}", q(inner)),
+			fmt.Sprintf(`{"name":"no declaration","comment":%s}`, q(inner)),
+			fmt.Sprintf("[\n%s\n]", q(inner)),
+		})), "json-quoting-tag-value"
 	default:
 		return []byte(fmt.Sprintf(`{"specVersion":%s,"bomFormat":%s,"components":[]}`, q(ver()), q(bf()))), "cdx-decl-reordered"
 	}
